@@ -43,5 +43,21 @@ theorem view_idem (C : Cfg Nat Nat U) (hidem : ∀ m x, C.proj m (C.proj m x) = 
   | none => rfl
   | some k => exact hidem k x
 
+/-- replay one announced value `v` against the acceptor's queue `q` of a stream: `qPush`, then — if the model sends
+the message — `qRecv` of exactly that message and `qIdle`, else `qIdle` at once. Returns the queue afterwards,
+whether a message was sent, and whether every verdict was `ok`. -/
+def acceptPush (C : Cfg Nat Nat U) (st : Stream Nat Nat) (q : List Entry) (prev v : Nat) (est : Bool) :
+    List Entry × Bool × Bool :=
+  let x := view C st.mask v
+  let q1 := qPush q x (view C st.mask prev) est
+  if C.eqv st.last x then (q1, false, qIdle q1 == .ok)
+  else ((qRecv q1 x true).1, true, (qRecv q1 x true).2 == .ok && qIdle (qRecv q1 x true).1 == .ok)
+
+/-- the values `vs` are announced one after the other; `prev` is the value announced before them -/
+def acceptAll (C : Cfg Nat Nat U) : Stream Nat Nat → List Entry → Nat → Bool → List Nat → Bool
+  | _, _, _, _, [] => true
+  | st, q, prev, est, v :: vs =>
+    let r := acceptPush C st q prev v est
+    r.2.2 && acceptAll C (push C v st) r.1 v (est || r.2.1) vs
 
 end ScVerif.C14
